@@ -37,6 +37,9 @@ PATH_MENU = [">s1", "<s1", ">s1>x1", "<x1<s1", ">x1>s2", ">s1>x1>s2", "<s2<x1<s1
 def harnesses(tier):
     hs = []
     hs.append({"id": "cmp/pair", "params": {"kind": "pair"}, "timeout": 120, "twin": True})
+    # the same with BO/NO beyond CPython's small-integer cache (equal values are then different objects)
+    hs.append({"id": "cmp/pair-large-tags", "params": {"kind": "pair", "large": True}, "timeout": 120})
+    hs.append({"id": "sort2-large-tags/>s1+>x1", "params": {"kind": "sort", "paths": [">s1", ">x1"], "large": True, "scaffold_ref": False}, "timeout": 200})
     shapes = [">s1", "<s1", ">x1", ">s1>x1", "<x1<s1", ">s1<s2", "<s1<s2>x1", ">x1<s1<s2", ">s1>x1>s2", "<s2<x1<s1",
               ">s1<x1>s2", "<s1>s2"]
     for sh in shapes:
@@ -77,6 +80,8 @@ def build(params):
         args = [(n, "int") for n in ("o1", "b1", "n1", "s1", "o2", "b2", "n2", "s2")]
         pre = ["o1 >= 0 and o2 >= 0 and o1 != o2", "b1 >= -1 and b2 >= -1 and n1 >= -1 and n2 >= -1",
                "s1 >= 0 and s2 >= 0"]
+        if params.get("large"):
+            pre.append("b1 >= 300 and b2 >= 300 and n1 >= 300 and n2 >= 300 and s1 >= 300 and s2 >= 300")
 
         def case(o1, b1, n1, s1, o2, b2, n2, s2):
             S = F.M["S"]
